@@ -84,11 +84,15 @@ def rtdc_copy(src_h5file: h5py.Group,
             #           dst_loc=dst_h5file["tables"],
             #           dst_name=meta_prefix + tkey,
             #           recursive=False)
-            dst_h5file["tables"].create_dataset(
+            src_tab = src_h5file["tables"][tkey]
+            dst_tab = dst_h5file["tables"].create_dataset(
                 name=tkey,
-                data=src_h5file["tables"][tkey][:],
+                data=src_tab[:],
                 fletcher32=True,
                 **hdf5plugin.Zstd(clevel=5))
+            # Also write all the attributes
+            for akey in src_tab.attrs:
+                dst_tab.attrs[akey] = src_tab.attrs[akey]
 
     # events
     if isinstance(features, list):
